@@ -19,7 +19,7 @@ use crate::{
     },
 };
 
-use rand::{CryptoRng, Rng, RngCore};
+use rand::{CryptoRng, Rng, RngCore, SeedableRng};
 use rand_chacha::ChaCha20Rng;
 
 // The statistical security parameter.
@@ -41,11 +41,18 @@ impl<OT: OtReceiver<Msg = Block> + Malicious> Sender<OT> {
         channel: &C,
         m: usize,
         p_to: usize,
-        shared_rand: &mut ChaCha20Rng,
+        _shared_rand: &mut ChaCha20Rng,
     ) -> Result<Vec<u8>, Error> {
         let m = m.next_multiple_of(8);
         let ncols = m + 128 + SSP;
         let qs = self.ot.send_setup(channel, ncols, p_to).await?;
+        // The coefficients of the correlation check are drawn only now that the receiver has
+        // committed itself to its matrix. Coefficients the receiver can compute in advance (the
+        // output of a generator that was seeded before the session) would let it prepare a matrix
+        // with inconsistent choice vectors that still passes the check.
+        let seed: [u8; 32] = rand::random();
+        send_to(channel, p_to, "KOS_OT_seed", &seed[..]).await?;
+        let mut check_rand = ChaCha20Rng::from_seed(seed);
         // Check correlation
         let mut check = (Block::default(), Block::default());
         let mut chi = Block::default();
@@ -53,7 +60,7 @@ impl<OT: OtReceiver<Msg = Block> + Malicious> Sender<OT> {
             let q = &qs[j * 16..(j + 1) * 16];
             let q: [u8; 16] = q.try_into().unwrap();
             let q = Block::from(q);
-            shared_rand.fill_bytes(chi.as_mut());
+            check_rand.fill_bytes(chi.as_mut());
             #[cfg(polytune_verif)]
             if j == 0 {
                 crate::verif::probe("kos_chi_sender", p_to, &[u128::from(chi)]);
@@ -163,7 +170,7 @@ impl<OT: OtSender<Msg = Block> + Malicious> Receiver<OT> {
         inputs: &[bool],
         _: &mut RNG,
         p_to: usize,
-        shared_rand: &mut ChaCha20Rng,
+        _shared_rand: &mut ChaCha20Rng,
     ) -> Result<Vec<u8>, Error> {
         let m = inputs.len();
         let m = m.next_multiple_of(8);
@@ -171,6 +178,12 @@ impl<OT: OtSender<Msg = Block> + Malicious> Receiver<OT> {
         let mut r = boolvec_to_u8vec(inputs);
         r.extend((0..(m_ - m) / 8).map(|_| rand::random::<u8>()));
         let ts = self.ot.recv_setup(channel, &r, m_, p_to).await?;
+        // the sender chooses the check coefficients after it has received the matrix
+        let seed: [u8; 32] = recv_vec_from::<u8>(channel, p_to, "KOS_OT_seed", 32)
+            .await?
+            .try_into()
+            .map_err(|_| Error::EmptyMsg)?;
+        let mut check_rand = ChaCha20Rng::from_seed(seed);
         // Check correlation
         let mut x = Block::default();
         let mut t = (Block::default(), Block::default());
@@ -180,7 +193,7 @@ impl<OT: OtSender<Msg = Block> + Malicious> Receiver<OT> {
             let tj = &ts[j * 16..(j + 1) * 16];
             let tj: [u8; 16] = tj.try_into().unwrap();
             let tj = Block::from(tj);
-            shared_rand.fill_bytes(chi.as_mut());
+            check_rand.fill_bytes(chi.as_mut());
             #[cfg(polytune_verif)]
             if j == 0 {
                 crate::verif::probe("kos_chi_receiver", p_to, &[u128::from(chi)]);
